@@ -9,7 +9,7 @@ for pid, cfg in PROPS.items():
     for u in cfg.get("tracer_units", []):
         if u not in units:
             units.append(u)
-    for t in cfg.get("coq_targets", []):
+    for t in cfg.get("coq_targets", []) + cfg.get("coq_targets_thorough", []):
         if t not in targets:
             targets.append(t)
 with vlib.Lock():
@@ -19,6 +19,11 @@ with vlib.Lock():
     for pid, cfg in PROPS.items():
         for g in cfg.get("generators", []):
             g(1, "quick")
+    for pid, cfg in PROPS.items():
+        for h in cfg.get("harnesses", []):
+            b, log = vlib.build_one_cxx(os.path.join(vlib.VERIF, "harness", h["name"] + ".cpp"), h["name"], h.get("flags", []))
+            if b is None:
+                print("prebuild problem: harness", h["name"], log[-500:], file=sys.stderr)
     ok, log, secs = vlib.coq_make(targets)
     print("coq prebuild ok=%s in %.0fs" % (ok, secs))
     if not ok:
